@@ -95,6 +95,7 @@ static int ref_parse(int *type, uint64_t *num, const char *name) {
 void h_decode_int(void) {
   MK_NAME(s);
   const char *p = s; uint64_t z = 7, v; int ok; size_t k; int r;
+  ASSUME(in_len <= 8); /* bound of this unit; overflow boundaries are in fn.examples / fn.rt_examples */
   r = ldb_decode_int(&z, &p);
   k = ref_digits(s, &v, &ok);
   CHECK(r == ((k > 0 && ok) ? 1 : 0), "decode_int: succeeds iff the string starts with a digit and the maximal digit prefix fits in uint64");
